@@ -7,7 +7,7 @@ package eng
 // over net.Pipe; on its end of every session the harness serves a tiny echo gRPC service that
 // reports which session served the call.  Everything runs inside one testing/synctest bubble.
 //
-// Ops:  begin <N> [role] | add | remove <k> remote|local | rpc | inflight <k> | cancel
+// Ops:  begin <N> [role] | add | remove <k> remote|local | rpc | inflight <k> | rapid | cancel
 // State observation: keys=<GetMuxConnections()> conn=<keys of MultiClientConn.connMap, parsed from Describe()>
 // dialed=<sessions on which the client connection currently holds a transport (yamux stream)> can=<CanMakeCalls()>;
 // rpc: ok | unavailable | blocked (no resolver state yet: deadline) | closed.
@@ -15,6 +15,7 @@ package eng
 import (
 	"context"
 	"fmt"
+	"runtime"
 	"sort"
 	"strconv"
 	"strings"
@@ -26,6 +27,8 @@ import (
 	"google.golang.org/grpc/status"
 	"google.golang.org/protobuf/types/known/emptypb"
 	"google.golang.org/protobuf/types/known/wrapperspb"
+
+	"github.com/temporalio/s2s-proxy/transport/mux/session"
 )
 
 func sortNumeric(ks []string) []string {
@@ -257,6 +260,38 @@ func c11Run(t *testing.T, e *Env, body []string, next func(w *muxWorld, step int
 			updates++
 			emit(fmt.Sprintf("inflight %d", idx), obs+" "+c11Observe(w))
 			checkSync(op)
+		case op == "rapid":
+			// rapid add/remove of the same slots and the empty set: a burst of session-list updates delivered to the client
+			// connection without settling in between (the empty table, single slots, the full table, ...), the LAST one
+			// being the manager's real table. "Once an update has been applied" the dial set must be that last table.
+			if applied && !w.cancelled {
+				cur := w.mgr.GetMuxConnections()
+				var ids []string
+				for k := range cur {
+					ids = append(ids, k)
+				}
+				sortNumeric(ids)
+				spin := func() {
+					for i, n := 0, e.Rng.IntN(40); i < n; i++ {
+						runtime.Gosched()
+					}
+				}
+				for round := 0; round < 12; round++ {
+					w.mcc.OnConnectionListUpdate(map[string]session.ManagedMuxSession{})
+					spin()
+					if len(ids) > 0 {
+						one := ids[e.Rng.IntN(len(ids))]
+						w.mcc.OnConnectionListUpdate(map[string]session.ManagedMuxSession{one: cur[one]})
+						spin()
+					}
+					w.mcc.OnConnectionListUpdate(cur)
+					spin()
+				}
+				synctest.Wait()
+				updates++
+			}
+			emit(op, c11Observe(w))
+			checkSync(op)
 		case op == "cancel":
 			w.cancel()
 			emit(op, c11Observe(w))
@@ -318,8 +353,11 @@ func TestC11(t *testing.T) {
 					{
 						role := []string{"establisher", "receiver"}[e.Rng.IntN(2)]
 						h := []string{fmt.Sprintf("begin %d %s", n, role), "rpc"}
-						for _, u := range prefix {
+						for i, u := range prefix {
 							h = append(h, u, "rpc")
+							if i == len(prefix)-1 && e.Rng.IntN(3) == 0 {
+								h = append(h, "rapid", "rpc")
+							}
 						}
 						c11Run(t, e, h, nil)
 						exhaustive++
@@ -359,6 +397,8 @@ func TestC11(t *testing.T) {
 					return fmt.Sprintf("remove %d %s", e.Rng.IntN(r), []string{"remote", "local"}[e.Rng.IntN(2)])
 				case x < 6 && r > 0:
 					return "inflight 0"
+				case x == 9:
+					return "rapid"
 				case x < 7 && r == 0:
 					return "add"
 				default:
